@@ -282,6 +282,22 @@ claim('C12',
       "Rocq proof composing the scheduling, integrator and estimate-state models; bit-exact implementation checks",
       "DESIGN.md 4/C12")
 
+claim('C04',
+      "Theorems over the reals about InsErrorModel.system_matrices (F, B_gyro, B_accel, 3D and 2D) and one step of "
+      "propagate_errors as GENERATED from /repo, against the hand-written hub specification Spec/NavODE.v (which C01 ties "
+      "to the kernel): for every state with |lat|<90, alt >= -1000 km, every error direction and every (omega, f), the "
+      "derivative of the navigation field along the library's own error chart (taken from correct_pva/perturb_lla) equals "
+      "(F + N) x for all 15 state components, with N an explicit closed-form remainder of 21 entries; B_gyro and B_accel "
+      "are the exact sensitivities (no remainder); F equals the documented blocks in spec terms; every entry of N is "
+      "bounded by an explicit constant on |lat|<=80, 0..20 km, |v_i|<=300 m/s (Interval); the 7-state matrices are exactly "
+      "T23 F T32 / T23 B and linearise the 2D field on level trajectories; the discrete recursion is the identity at dt=0 "
+      "with derivative 1/2(F_k+F_k+1)x + 1/2(B_k+B_k+1)e. Partial: exchange of the error- and time-derivatives and the "
+      "quantitative bound over a finite filter step are supported by finite-difference tests of the real Integrator only. "
+      "Recorded finding: the no-altitude model holds only in vertical equilibrium.",
+      COMMON_NOTE + "Interval proofs additionally depend on the primitive-integer interface of the standard library.",
+      "Rocq proof over generated real-number model (translator: symbolic tracing) against the hand-written ODE spec; Coquelicot is_derive, Interval",
+      "DESIGN.md 4/C04")
+
 REASON_TODO = "check not built yet (framework under construction; see DESIGN.md section 4 for the planned proof)"
 
 
